@@ -177,7 +177,7 @@ func TestKnown(t *testing.T)  { kit.RunKnown(t) }
 func TestReplay(t *testing.T) { kit.RunReplay(t) }
 
 func TestConservative(t *testing.T) {
-	kit.Rapid(t, "conservative", 600000, 8000000, func(t *rapid.T) {
+	kit.Rapid(t, "conservative", 600000, 32000000, func(t *rapid.T) {
 		e := exts[rapid.IntRange(0, len(exts)-1).Draw(t, "ext")]
 		base := e.strip(gen.DrawConfig(t, gen.ConfigOpts{}))
 		if e.name == "table" || e.name == "linkify" || e.name == "strikethrough" || e.name == "tasklist" {
@@ -211,7 +211,7 @@ func TestConservative(t *testing.T) {
 }
 
 func TestGFM(t *testing.T) {
-	kit.Rapid(t, "gfm", 100000, 1500000, func(t *rapid.T) {
+	kit.Rapid(t, "gfm", 100000, 6000000, func(t *rapid.T) {
 		base := gen.DrawConfig(t, gen.ConfigOpts{})
 		base.GFM, base.Linkify, base.Table, base.Strike, base.Task, base.TableAlign = false, false, false, false, false, 0
 		src, class := gen.Doc(t, gen.Any, kit.Pick(30, 80), "d")
